@@ -99,6 +99,10 @@ func RunConfig(prefix, in, out string) error {
 				rec["start"] = "timeout"
 			case err == nil:
 				rec["start"] = "ok"
+			case strings.Contains(string(outb), "components did not come up") && !strings.Contains(string(outb), "panic:") &&
+				!strings.Contains(string(outb), "fatal error:") && !strings.Contains(string(outb), "[FATA]"):
+				// the process stayed alive and reported an ordinary error (e.g. an address it cannot listen on)
+				rec["start"] = "notup"
 			default:
 				rec["start"] = "crash"
 			}
